@@ -42,6 +42,7 @@ class Recorder(object):
 
     def emit(self, ev):
         self.events.append(ev)
+        core.trace_feed(ev)
         if self.monitor is not None:
             self.monitor.feed(ev)
 
